@@ -80,8 +80,16 @@ def _node_oracle(spec, desc, real):
 def _conv_cases():
     from harness import lib_valueprop as L
 
-    return [{"fn": "conv", "sel": sel, "ty": ty, "val": val}
+    base = [{"fn": "conv", "sel": sel, "ty": ty, "val": val}
             for sel in ("reference", "onnxruntime") for ty in L.declared_universe() for val in L.result_universe()]
+    # declared dims {0, 1, k, named, unknown} x actual extents {0, 1, k, k+1}, ranks 0-3, exhaustively; both pipelines
+    # for ranks <= 2 and the container cases, alternating for rank 3
+    grid = []
+    for i, (ty, val) in enumerate(L.shape_grid()):
+        rank3 = ty["t"] == "tensor" and len(ty["s"]) == 3
+        for sel in ((("reference", "onnxruntime")[i % 2],) if rank3 else ("reference", "onnxruntime")):
+            grid.append({"fn": "conv", "sel": sel, "ty": ty, "val": val})
+    return base + grid
 
 
 def _conv_real(req):
@@ -168,6 +176,32 @@ def _run(ck: core.Check, pool):
         for sel in ("reference", "onnxruntime"):
             tasks.append({"level": "program", "steps": fixed_prog, "sel": sel, "k": i % 4, "kind": "raise", "at": ("run", "init")[(i // 4) % 2],
                           "exc_id": i})
+    # fixed part (round 10b): exception VALUES (no-argument instances, empty / multi-line / huge / non-ASCII messages, format
+    # directives, non-string args, required constructor args, __str__ raising or empty) at calls 1-4 of the fixed program
+    for v in range(len(L.EXC_VALUES)):
+        for sel in ("reference", "onnxruntime"):
+            tasks.append({"level": "program", "steps": fixed_prog, "sel": sel, "k": v % 4, "kind": f"raisev:{v}",
+                          "at": ("run", "init")[(v // 4) % 2], "exc_id": [0, 2, 1, 5, 6, 10, 33, 4][v % 8]})
+    # fixed part (round 10b): programs whose FAULT-FREE output types contain 0-length dimensions (empty constant through
+    # Identity, Slice to empty, NonZero of zeros, Shape of a scalar), the fault at that call = the right element type with
+    # ONE extent changed (0 -> k, k -> 0, k -> k+-1) or rank +-1, and consumers (Shape / Concat / Identity) built afterwards
+    C = lambda dt, shape, data, how="value": {"op": "const", "how": how, "dt": dt, "shape": shape, "data": data}  # noqa: E731
+    zero_progs = [
+        ([C("i64", [0, 2], []), {"op": "identity", "args": [0]}, {"op": "shape", "args": [1]}, {"op": "concat", "args": [1, 1]},
+          {"op": "identity", "args": [3]}], 0, ["i64:3x2", "i64:1x2", "i64:0x3", "i64:0x1", "i64:0", "i64:0x2x1", "i64:0x2"]),
+        ([C("i64", [3], [5, 6, 7]), C("i64", [1], [1]), C("i64", [1], [1], "init"), {"op": "slice", "args": [0, 1, 2]},
+          {"op": "shape", "args": [3]}, {"op": "concat", "args": [3, 0]}], 0, ["i64:1", "i64:3", "i64:", "i64:0x1", "i64:0"]),
+        ([C("i64", [2, 2], [0, 0, 0, 0]), {"op": "non_zero", "args": [0]}, {"op": "shape", "args": [1]},
+          {"op": "identity", "args": [1]}], 0, ["i64:2x1", "i64:2x3", "i64:0x0", "i64:1x0", "i64:3x0", "i64:2", "i64:2x0"]),
+        ([C("f32", [], [1.5]), {"op": "shape", "args": [0]}, {"op": "identity", "args": [1]}, {"op": "concat", "args": [1, 2]}],
+         0, ["i64:1", "i64:2", "i64:", "i64:0x1", "i64:0"]),
+        ([C("i64", [0, 2], [], "init"), C("i64", [1, 2], [1, 2]), {"op": "concat", "args": [0, 1]}, {"op": "identity", "args": [0]},
+          {"op": "concat", "args": [3, 3]}, {"op": "shape", "args": [4]}], 1, ["i64:3x2", "i64:1x2", "i64:0x3", "i64:0x2"]),
+    ]
+    for steps, k, kinds in zero_progs:
+        for kind in kinds:
+            for sel in ("reference", "onnxruntime"):
+                tasks.append({"level": "program", "steps": steps, "sel": sel, "k": k, "kind": "arr:" + kind, "at": "run", "exc_id": 0})
     # fixed cases: constants spox propagates by itself (no backend): strings as str / UTF-8 bytes, NULs, non-ASCII
     fixed_consts = [
         [{"op": "const", "how": "value_string", "data": "ü", "bytes": True}],
